@@ -43,9 +43,13 @@ Cast(mode, n) == IF mode = "legacy" THEN Strip(SubSeq(Pad(n, 8), 1, 4))      \* 
 
 \* further named slips (seeded changes): "width_from_mode" takes the old prefix width as 1 << (first byte % 4), which is 8
 \* instead of 5 for the big-integer mode; "empty_batch_noop" returns the input untouched when the batch is empty
+\* "shift_from_growth": the payload is moved from offset (new width - old width) instead of from the old width (equal for
+\* the 1->2 and 2->4 byte steps, different when a batch jumps two classes or crosses 4->5);
+\* "uniform_prefix": a same-width prefix is rewritten as (count << 2 | mode) in `width` bytes, which is not the form of the
+\* five-byte big-integer prefix;  "one_byte_is_empty": a buffer of at most one byte is taken for "no sequence yet"
 AppendImpl(mode, buf, batch) ==
   IF mode = "empty_batch_noop" /\ IsZeroDig(batch.n) THEN AOk(buf) ELSE
-  IF Len(buf) = 0
+  IF Len(buf) = 0 \/ (mode = "one_byte_is_empty" /\ Len(buf) <= 1)
   THEN IF DigLess(U32Max, batch.n) THEN AErr                                \* compact_encode_len_to
        ELSE AOk(CompactEnc(batch.n) \o Repeat(batch.item, batch.n))
   ELSE LET c == CompactDec(4, buf, 0) IN
@@ -56,9 +60,14 @@ AppendImpl(mode, buf, batch) ==
             IN IF DigLess(U32Max, newn) THEN AErr                           \* checked_add
                ELSE LET oldw == IF mode = "width_from_mode" THEN 2 ^ (buf[1] % 4) ELSE CompactLen(c.v)
                         neww == CompactLen(newn)
-                        body == SubSeq(buf, oldw + 1, Len(buf))
+                        from == IF mode = "shift_from_growth" /\ neww > oldw THEN neww - oldw ELSE oldw
+                        body == SubSeq(buf, from + 1, Len(buf))
+                        pre == IF mode = "uniform_prefix" /\ neww = 5
+                               THEN LET sh == DigAdd(DigAdd(newn, newn), DigAdd(newn, newn)) IN          \* count << 2, low bits 0b11
+                                    [i \in 1..5 |-> IF i = 1 THEN (Pad(sh, 5)[1] + 3) % 256 ELSE Pad(sh, 5)[i]]
+                               ELSE CompactEnc(newn)
                     IN IF oldw = neww
-                       THEN AOk(CompactEnc(newn) \o SubSeq(buf, neww + 1, Len(buf)) \o Repeat(batch.item, batch.n))  \* prefix overwritten in place
+                       THEN AOk(pre \o SubSeq(buf, neww + 1, Len(buf)) \o Repeat(batch.item, batch.n))  \* prefix overwritten in place
                        ELSE IF oldw > Len(buf) THEN AErr                                                           \* slicing past the end panics
                        ELSE AOk(CompactEnc(newn) \o body \o Repeat(batch.item, batch.n))                           \* payload moved behind the new prefix
                     \* oldw = neww: prefix overwritten in place; otherwise payload moved: same bytes
